@@ -81,9 +81,9 @@ def TDefects.asWas : TDefects := ⟨true, true, true, true, true, true, true, tr
 nil type), 6162013 (numeric-only literal retyping), 106fb38 (closure with a nil-typed body), e2e7046 (`in`
 needs a usable key), 265c5fa (no slicing of maps), a03872c (computed map-literal key must be a string),
 911e74d (ConstantNode), 390c455 (type of a conditional), f1ac5c8 (slicing an array), 57c7777 (no retyping to an
-`interface{}` parameter), 6ec68be (`Fast` only for exactly `func(...interface{}) interface{}`).  The loose index rule and the static slice types of `filter`/`map` are pinned by
+`interface{}` parameter), 6ec68be (`Fast` only for exactly `func(...interface{}) interface{}`), d970c37 (a slice through a pointer has the pointed-to type; `len` dereferences).  The loose index rule and the static slice types of `filter`/`map` are pinned by
 /repo's own tests and remain, as does `combined` on interface operands. -/
-def TDefects.asIs : TDefects := ⟨false, true, false, false, true, false, false, false, false, false, true, false, true, false, false, false, true⟩
+def TDefects.asIs : TDefects := ⟨false, true, false, false, true, false, false, false, false, false, true, false, true, false, false, false, false⟩
 def TDefects.repaired : TDefects := ⟨false, false, false, false, false, false, false, false, false, false, false, false, false, false, false, false, false⟩
 /-- intermediate flag sets used for self-tests against partially patched copies of the repository -/
 def TDefects.safeFix : TDefects := ⟨false, true, false, false, true, false, true, true, true, true, true, true, true, true, true, true, true⟩
